@@ -13,9 +13,40 @@ import (
 	"time"
 )
 
-// hangTimeout: how long one sequential operation on a mock may take before it
-// counts as blocked forever (they normally take microseconds).
-var hangTimeout = 2 * time.Second
+// How long one sequential operation on a mock may take before it counts as
+// blocked forever (they normally take microseconds). On a machine under heavy
+// load a runnable goroutine can wait seconds for a processor, so the first
+// blockage in a variant (one flag combination = one run of the template) must
+// last hangFirst; once one was seen there, further ones are believed after
+// hangNext (each costs its limit).
+var (
+	hangFirst = 30 * time.Second
+	hangNext  = 2 * time.Second
+	hangMu    sync.Mutex
+	hangSeen  = map[string]bool{}
+)
+
+func variantOf(mock string) string {
+	if i := strings.Index(mock, "/"); i >= 0 {
+		return mock[:i]
+	}
+	return mock
+}
+
+func hangLimit(mock string) time.Duration {
+	hangMu.Lock()
+	defer hangMu.Unlock()
+	if hangSeen[variantOf(mock)] {
+		return hangNext
+	}
+	return hangFirst
+}
+
+func noteHang(mock string) {
+	hangMu.Lock()
+	hangSeen[variantOf(mock)] = true
+	hangMu.Unlock()
+}
 
 // ---- histories printed by TLC from spec/MockSeq.tla -----------------------
 
@@ -49,6 +80,7 @@ type SeqJob struct {
 	Traces  int    `json:"traces"`
 	Len     int    `json:"len"`
 	OutFile string `json:"outFile"`
+	Script  string `json:"script"` // "" = random operations, "growth" = see record mode
 }
 
 type Mismatch struct {
@@ -354,7 +386,8 @@ func probeNilRec(e *Entry) (rec bool, hung bool) {
 	select {
 	case r := <-done:
 		return r, false
-	case <-time.After(hangTimeout):
+	case <-time.After(hangLimit(e.Name)):
+		noteHang(e.Name)
 		return false, true
 	}
 }
@@ -373,6 +406,35 @@ func runSeqReplay(job *SeqJob) *SeqResult {
 		res.Mismatches = append(res.Mismatches, Mismatch{Hist: 0, Step: 1, Prop: "C06,C07,C04", Field: "hang", Want: "operations return",
 			Got: "after a call of a nil function panicked, reading the accessors never returns", Op: "call A nil; calls"})
 		return res
+	}
+	// which field of a call record holds which argument: where the interface writes
+	// parameter names, the record's fields carry those names, in order
+	for _, x := range job.Map {
+		want := e.Fields[x]
+		mv := reflect.ValueOf(e.New())
+		acc := mv.MethodByName(x + "Calls")
+		if !acc.IsValid() || acc.Type().NumOut() != 1 || acc.Type().Out(0).Kind() != reflect.Slice {
+			continue
+		}
+		st := acc.Type().Out(0).Elem()
+		if st.Kind() != reflect.Struct {
+			continue
+		}
+		var got []string
+		for i := 0; i < st.NumField(); i++ {
+			got = append(got, st.Field(i).Name)
+		}
+		bad := len(want) != len(got)
+		for i := 0; !bad && i < len(want); i++ {
+			if want[i] != "" && want[i] != got[i] {
+				bad = true
+			}
+		}
+		if bad {
+			res.NMismatch++
+			res.Mismatches = append(res.Mismatches, Mismatch{Hist: 0, Step: 0, Prop: "C04", Field: "record-field-names",
+				Want: fmt.Sprint(want), Got: fmt.Sprint(got), Op: x + "Calls"})
+		}
 	}
 	f, err := os.Open(job.HistFile)
 	if err != nil {
@@ -437,7 +499,8 @@ func runSeqReplay(job *SeqJob) *SeqResult {
 				mu.Lock()
 				res.Steps++
 				mu.Unlock()
-			case <-time.After(hangTimeout):
+			case <-time.After(hangLimit(job.Mock)):
+				noteHang(job.Mock)
 				e := h.H[step]
 				p := map[string]string{"call": "C03,C04", "calls": "C04", "reset": "C08", "resetall": "C08"}[e.Op]
 				for _, prev := range h.H[:step+1] {
@@ -447,7 +510,7 @@ func runSeqReplay(job *SeqJob) *SeqResult {
 					}
 				}
 				add(Mismatch{Hist: hi, Step: step + 1, Prop: "C06," + p, Field: "hang", Want: "operation returns",
-					Got: fmt.Sprintf("no return within %s", hangTimeout), Op: e.Op + " " + e.M + " " + strings.Join(e.Mode, ":")})
+					Got: "no return within the time limit (30s for the first blockage of a variant, 2s afterwards)", Op: e.Op + " " + e.M + " " + strings.Join(e.Mode, ":")})
 				hung++
 				break wait
 			}
@@ -546,7 +609,18 @@ func runSeqRecord(job *SeqJob) *SeqResult {
 		for i := 0; i < job.Len && !hungTrace; i++ {
 			am := abs[rng.Intn(len(abs))]
 			op, mode := "call", []string{"-"}
+			if job.Script == "growth" {
+				// one method called again and again (the record list crosses every capacity it is
+				// ever grown to: 1, 2, 4, 8, 16, 32), snapshots taken just before and after
+				am = "A"
+				mode = []string{"ret"}
+				switch i {
+				case 3, 10, 11, 20, 21, 38, 39, job.Len - 1:
+					op, mode = "calls", []string{"-"}
+				}
+			}
 			switch k := rng.Intn(10); {
+			case job.Script == "growth":
 			case k < 6:
 				modes := [][]string{{"nil"}, {"ret"}, {"ret"}, {"panic"}, {"call", abs[rng.Intn(len(abs))]}}
 				if e.Resets {
@@ -572,7 +646,8 @@ func runSeqRecord(job *SeqJob) *SeqResult {
 			}()
 			select {
 			case <-doneCh:
-			case <-time.After(hangTimeout):
+			case <-time.After(hangLimit(job.Mock)):
+				noteHang(job.Mock)
 				hungTrace = true
 			}
 			if hungTrace {
